@@ -53,7 +53,8 @@ func c14() {
 				}
 				sets = append(sets, ps)
 			} else {
-				sets = append(sets, ref.ParamSet{ID: uint(i * (1 + rng.Intn(3))), Algo: ref.AlgoArgon, Time: uint32(1 + rng.Intn(3)), Memory: []uint32{8, 16, 64, 1024}[rng.Intn(4)], Threads: []uint8{1, 2, 4}[rng.Intn(3)], Length: []uint32{16, 32, 64}[rng.Intn(3)]})
+				// threads also above any plausible CPU count, tag lengths also longer than common I/O buffers (record line > 4 KiB)
+				sets = append(sets, ref.ParamSet{ID: uint(i * (1 + rng.Intn(3))), Algo: ref.AlgoArgon, Time: uint32(1 + rng.Intn(3)), Memory: []uint32{8, 16, 64, 1024}[rng.Intn(4)], Threads: []uint8{1, 2, 4, 1, 2, 17, 40, 130, 255}[rng.Intn(9)], Length: []uint32{16, 32, 64, 16, 32, 64, 3100, 5000, 49200}[rng.Intn(9)]})
 			}
 		}
 		// ids must be unique
